@@ -108,6 +108,9 @@ type scenario struct {
 	// 2n <= e open the gate of slot e-2n; Held = callbacks that were actually held
 	Events []int `json:"events,omitempty"`
 	Held   int   `json:"held,omitempty"`
+	// kinds stkp / cntp (panic.go): 4n <= e < 5n arm a one-shot panic at the entry of callback slot e-4n, 5n <= e after it has
+	// read / been held; Panics = callbacks that actually panicked (the caller recovered)
+	Panics int `json:"panics,omitempty"`
 }
 
 // ---------- worlds ----------
